@@ -1,5 +1,5 @@
-(* Model of ExplicitRegression.evaluate_fitness_vector / get_fitness_vector_and_jacobian (property C07), with
-   use_linear_correction off.  Exact rationals; the equation's values f(x_i) and partials df(x_i)/dc_j are inputs
+(* Model of ExplicitRegression.evaluate_fitness_vector / get_fitness_vector_and_jacobian (property C07); the
+   use_linear_correction option is modelled at the end of the file with scipy's linregress as an oracle.  Exact rationals; the equation's values f(x_i) and partials df(x_i)/dc_j are inputs
    (what AGraph returns: C01/C02). *)
 From Coq Require Import QArith List.
 Import ListNotations.
@@ -24,3 +24,17 @@ Definition get_fitness_vector_and_jacobian (s : er_state) (relative : bool) (fx 
   (mkER (S (eval_count s)), (fitness_vector relative fx y, jacobian relative dfdc y)).
 (* __call__ = metric(evaluate_fitness_vector) ; get_fitness_and_gradient = (metric, dmetric)(get_fitness_vector_and_jacobian):
    one increment each *)
+
+(* ---- use_linear_correction=True ----
+   f_of_x = intercept + slope * f_of_x ; df_dc *= slope, where (slope, intercept) = scipy.stats.linregress(f_of_x, y): an
+   ORACLE here ([None]: linregress raised ValueError and the code carries on uncorrected).  The Jacobian the code returns is
+   the derivative of the corrected residual with slope and intercept HELD FIXED (see Proofs/MetricsProofs.v). *)
+Definition corrected (lc : option (Q * Q)) (fx : list Q) : list Q :=
+  match lc with None => fx | Some (slope, intercept) => map (fun f => (intercept + slope * f)%Q) fx end.
+Definition corrected_d (lc : option (Q * Q)) (dfdc : list (list Q)) : list (list Q) :=
+  match lc with None => dfdc | Some (slope, _) => map (map (fun d => (d * slope)%Q)) dfdc end.
+Definition evaluate_fitness_vector_lc (s : er_state) (lc : option (Q * Q)) (relative : bool) (fx y : list Q) :=
+  evaluate_fitness_vector s relative (corrected lc fx) y.
+Definition get_fitness_vector_and_jacobian_lc (s : er_state) (lc : option (Q * Q)) (relative : bool) (fx : list Q)
+           (dfdc : list (list Q)) (y : list Q) :=
+  get_fitness_vector_and_jacobian s relative (corrected lc fx) (corrected_d lc dfdc) y.
